@@ -27,7 +27,7 @@ def run(ctx):
     tasks = [{"seed": ctx.seed, "shard": i, "count": 8 if quick else 120, "steps": 60 if quick else 120, "nmax": 8,
               "monitors": ["serial"]} for i in range(shards)]
     ctx.map("vlib.histrun", "history_task", tasks, timeout=3000)
-    c19.run_configs(ctx, n_runs=48 if quick else 800, focus="trace", chains=not quick or True)
+    c19.run_configs(ctx, n_runs=48 if quick else 4000, focus="trace", chains=not quick or True)
     for k, m in (("serial_roundtrips", 200), ("serial_followup_evaluations", 500), ("trace_entries_checked", 100)):
         if ctx.counters.get(k, 0) < m:
             ctx.inconc("monitor %s evaluated only %d times" % (k, ctx.counters.get(k, 0)))
